@@ -432,6 +432,28 @@ func genSam(r *RNG, disjoint bool, maxIns int) samCase {
 				sc.tags["three-records-short-insertion-in-overlap"] = true
 			}
 		}
+		if len(recs) == 0 && L >= 16 && nq >= 2 && qi < nq-1 && r.Chance(1, 12) {
+			// a query in three consecutive pieces, the last one reaching the last reference base, followed by a query in
+			// two pieces (whatever a worker keeps per record slot from one query must not reach the next, shorter one)
+			a := r.Range(3, L/3)
+			b := r.Range(a+3, 2*L/3)
+			recs = append(recs,
+				samRec{name: name, flag: 0, pos: 1, cigar: fmt.Sprintf("%dM", a), seq: tmpl[:a]},
+				samRec{name: name, flag: 2048, pos: a + 1, cigar: fmt.Sprintf("%dM", b-a), seq: tmpl[a:b]},
+				samRec{name: name, flag: 2048, pos: b + 1, cigar: fmt.Sprintf("%dM", L-b), seq: tmpl[b:]})
+			for k := 0; k < len(recs); k++ {
+				sc.recs = append(sc.recs, recs[k])
+			}
+			t2 := mutateSeq(r, ref, symACGT, 1, 6, false)
+			m := r.Range(4, L-6)
+			n2 := fmt.Sprintf("q%dtwo", qi)
+			sc.recs = append(sc.recs,
+				samRec{name: n2, flag: 0, pos: 1, cigar: fmt.Sprintf("%dM", m), seq: t2[:m]},
+				samRec{name: n2, flag: 2048, pos: m + 2, cigar: fmt.Sprintf("%dM", L-m-3), seq: t2[m+1 : L-2]})
+			sc.tags["multi-record"] = true
+			sc.tags["three-records-then-two"] = true
+			continue
+		}
 		if len(recs) == 0 && L >= 12 && r.Chance(1, 10) {
 			// a query in two pieces that reach both ends of the reference and leave a stretch in the middle uncovered; the
 			// primary line (first in the file) is the right-hand piece
